@@ -1,0 +1,5 @@
+//go:build !verif
+
+package wallet
+
+func verifDelay(point string) {}
